@@ -36,6 +36,9 @@ func Haversine(from, to Location) (Distance, error) {
 	sdy := math.Sin(dy / 2)
 	sdx := math.Sin(dx / 2)
 	a := (sdy * sdy) + math.Cos(y1)*math.Cos(y2)*sdx*sdx
+	// Rounding can push a slightly above 1 for (nearly) antipodal locations,
+	// the square root of 1-a is not a number then.
+	a = math.Min(a, 1)
 
 	return NewDistance(
 		2*radius*math.Atan2(math.Sqrt(a), math.Sqrt(1-a)),
